@@ -53,6 +53,7 @@ LABEL_POOLS = [
     ["x y", "x", "y", "ß", "é"],
     ["A", "a", "AA", "aa", "Z"],
     ["all", "none", "total", "nan", "index", "groups", "0"],  # ordinary strings that read like keywords / sentinels
+    ["EU", "EU ", "EU\t", " EU", "eu", "E U"],  # labels that differ only by whitespace or case are different labels
 ]
 GROUP_METRICS = ["group_tpr", "group_fnr", "group_tnr", "group_fpr", "group_topr", "group_tonr", "group_tar", "group_frr",
                  "group_trr", "group_far", "group_acceptance_rate", "group_rejection_rate"]
